@@ -69,6 +69,7 @@ func (p *c10) Cases(tier string, emit func(interface{})) {
 		}
 	}
 	c10SchemaCases(tier, emit)
+	c10JSONCases(emit)
 }
 
 type namedInt32 int32
@@ -474,6 +475,8 @@ func (p *c10) Run(raw json.RawMessage) eng.Result {
 		return c10RunOneOf(c)
 	case "schema":
 		return c10RunSchema(c)
+	case "jsontext":
+		return c10RunJSONText(c)
 	}
 	panic("bad part")
 }
